@@ -17,7 +17,8 @@ RULE = ("exhaustive: every string of length <=5 (quick) / <=6 (thorough) over th
         "peel_off_esc_code, parse, remove_ansi and the scanner tie; every string <=5 over {a ESC 0x9b [ U+0663 1 ; m} (a non-ASCII "
         "decimal digit: regression guard for the \\d fix); grammar-generated numeric-CSI strings; real-world samples; seeded random "
         "strings over a wider alphabet; ESC[<n>m for n = 0..110 alone and after an active format; parameters of 4300/4301 digits "
-        "(CPython int() limit); lone-surrogate strings (oracle only: not representable in the model). "
+        "(CPython int() limit); long strings with 17..1000 (thorough ..2000) CSI sequences and an unsupported SGR at the start/"
+        "middle/end/nowhere; lone-surrogate strings (oracle only: not representable in the model). "
         "non-trivial = the string contains ESC or 0x9b")
 ASSUMPTIONS = ["str is a sequence of code points (lone surrogates excluded from generators)",
                "CPython `re` semantics for the three regexes (lazy front = earliest match, greedy classes; DOTALL) are modelled by hand; "
@@ -318,6 +319,29 @@ def canon_eff_cells(reply):
     return reply
 
 
+class Lazy:
+    """a canonical form computed only when the raw replies differ (equal raw replies have equal canonical forms)"""
+    __slots__ = ("reply", "fn")
+
+    def __init__(self, reply, fn):
+        self.reply, self.fn = reply, fn
+
+    def __eq__(self, other):
+        return isinstance(other, Lazy) and (self.reply == other.reply or self.fn(self.reply) == other.fn(other.reply))
+
+    def __ne__(self, other):
+        return not self.__eq__(other)
+
+    __hash__ = None
+
+    def __repr__(self):
+        return repr(self.fn(self.reply))
+
+
+def lazy(fn):
+    return lambda reply: Lazy(reply, fn)
+
+
 def canon_text(reply):
     """'ok <fmt>' -> ('ok', text); a raised exception stays (the kind is irrelevant: the property says 'never')"""
     if reply.startswith("ok "):
@@ -339,9 +363,9 @@ def tie_fromstr(ctx, name, cases, line_fn, impl_fn):
             memo[k] = impl_fn(c)
         return memo[k]
     if sup:
-        ctx.tie(name, sup, line_fn, impl, canon_eff_cells, canon_eff_cells)
+        ctx.tie(name, sup, line_fn, impl, lazy(canon_eff_cells), lazy(canon_eff_cells))
     if rest:
-        ctx.tie(name + "-text(unsupported-sgr)", rest, line_fn, impl, canon_text, canon_text)
+        ctx.tie(name + "-text(unsupported-sgr)", rest, line_fn, impl, lazy(canon_text), lazy(canon_text))
     ctx.tie(name + "-runs", cases, line_fn, impl, level="representation")
 
 
@@ -377,15 +401,25 @@ def nontrivial(s):
 def run_enumeration(ctx, name, alpha, maxlen, tag):
     jobs = jobs_for(alpha, maxlen)
     total = 0
+    batch, look, viols = [], {}, []
+
+    def flush():
+        if batch:
+            tie_fromstr(ctx, name, batch, lambda s: "fromstr " + wire.enc_tf(s), look.__getitem__)
+            judge(ctx, viols)
+            batch.clear(); look.clear(); viols.clear()
     with multiprocessing.get_context("fork").Pool(16) as pool:
         for job, (replies, whats) in zip(jobs, pool.imap(_work, jobs, chunksize=4)):
             cases = list(strings_of(*job))
-            look = dict(zip(cases, replies))
-            tie_fromstr(ctx, name, cases, lambda s: "fromstr " + wire.enc_tf(s), look.__getitem__)
+            look.update(zip(cases, replies))
+            batch.extend(cases)
             for s in cases:
                 ctx.count(s, nontrivial=nontrivial(s), tag=tag)
-            judge(ctx, [(s, w, look[s]) for s, w in zip(cases, whats) if w])
+            viols.extend((s, w, r) for s, w, r in zip(cases, whats, replies) if w)
             total += len(cases)
+            if len(batch) >= 100000:                     # few, large driver runs
+                flush()
+        flush()
     ctx.exhaustive.append("%s: all strings of length <=%d over %d symbols: %d" % (tag, maxlen, len(alpha), total))
 
 
@@ -444,6 +478,32 @@ def token_cases(rng, n):
             pool = texts if r < 0.4 else sup if r < 0.55 else unsup if r < 0.7 else trunc if r < 0.88 else other
             parts.append(rng.choice(pool))
         out.append("".join(parts))
+    return out
+
+
+def long_cases(rng, thorough):
+    """long strings: 17 .. 1000 numeric CSI sequences of several kinds with text (some long plain stretches) in between, and
+    a wholly unsupported SGR sequence (-> ValueError -> remove_ansi fallback) at the start / in the middle / at the end / not
+    at all.  (Anything that handles only the first k sequences of a string shows up here.)"""
+    seqs = ["\x1b[31m", "\x1b[0m", "\x1b[1;44m", "\x1b[2A", "\x1b[K", "\x1b[10;20H", "\x1b[m", "\x1b[39;49m", "\x1b[4m", "\x1b[2J", "\x1b[1 q"]
+    unsup = ["\x1b[90m", "\x1b[22m", "\x1b[38m"]
+    texts = ["a", "def ", "x\ny", " ", "return 1\n", "", "m", "12"]
+    out = []
+    sizes = [17, 18, 33, 100, 1000] + ([16, 19, 32, 34, 64, 65, 257, 500, 2000] if thorough else [])
+    for n in sizes:
+        reps = (3 if n <= 100 else 1) if thorough else 1
+        for _ in range(reps):
+            for where in ("start", "middle", "end", "none"):
+                if n >= 1000 and where in ("middle",) and not thorough:
+                    continue
+                parts = []
+                bad = {"start": 0, "middle": n // 2, "end": n - 1, "none": -1}[where]
+                for i in range(n):
+                    parts.append(rng.choice(unsup) if i == bad else rng.choice(seqs))
+                    parts.append("plain " * 40 if rng.random() < 0.03 else rng.choice(texts))
+                out.append("".join(parts))
+    # two lines of pygments-style bright-colour output
+    out.append("".join("\x1b[9%dm%s\x1b[39m " % (i % 8, w) for i, w in enumerate("def f ( x ) : return x + 1 # twenty tokens of code in bright colours".split())) + "\n")
     return out
 
 
@@ -526,6 +586,7 @@ def small_cases(ctx):
     cases += numeric_cases(ctx.rng, 4000 if ctx.thorough else 1000)
     cases += wide_numeric_cases(ctx.rng, 2000 if ctx.thorough else 600)
     cases += random_cases(ctx.rng, 20000 if ctx.thorough else 3000)
+    cases += long_cases(ctx.rng, ctx.thorough)
     cases += token_cases(ctx.rng, 40000 if ctx.thorough else 6000)
     return cases
 
